@@ -374,3 +374,31 @@ package jp
 //@       invariant [C06 bounds] -1 <= i && i < len(tv)
 //@     loop 2
 //@       invariant [C06 bounds] -1 <= i && 2 * (i + 1) <= len(ns)
+
+// ---------------------------------------------------------------------------
+// Text form of equations (C14): an operand is printed inside parentheses whenever printing it bare would let the parser
+// regroup it — a left operand whose operator binds looser than its parent's, a right operand whose operator binds no
+// tighter (operators of one precedence associate to the left when parsed). Stated where Append prints its operands
+// ($arg2 is the parens argument of the recursive call); the recursion itself is by contract.
+
+//@ unit jpequation
+
+// Assumed (constructors): the function-like operators have their operands.
+//@ pred typeinv_Equation = (self.o != nil && (self.o.code == length.code || self.o.code == count.code) ==> self.left != nil)
+//@     && (self.o != nil && (self.o.code == match.code || self.o.code == search.code) ==> self.left != nil && self.right != nil)
+
+// Assumed: printing a constant writes only the output buffer.
+//@ func (*Equation).appendValue
+//@   trusted
+//@   modifies heap(buf)
+//@   ensures arrid(result) == arrid(buf) || fresh(result)
+
+//@ func (*Equation).Append
+//@   opt wrap = data
+//@   requires OpsInit(0)
+//@   modifies heap(buf)
+//@   ensures [C14 C07 grow] arrid(result) == old(arrid(buf)) || fresh(result)
+//@   at call Append#4
+//@     assert [C14 parens-left] e.left.o != nil && e.left.o.prec > e.o.prec ==> $arg2
+//@   at call Append#5
+//@     assert [C14 parens-right] e.right.o != nil && e.right.o.prec >= e.o.prec ==> $arg2
